@@ -441,6 +441,12 @@ func oracles(r *h.Run, p Program, ci int, s step, strict bool) (stop bool) {
 			r.Note("dump failed: " + s.dumpErr[i].Error())
 			return true
 		}
+		// mkdir -p: MkDir succeeds whenever the directory exists afterwards (also when the back end's MkdirAll reported an error)
+		if c.Op == "mkdir" && c.MkdirRace != "" && s.res[i].Err != "" && !s.res[i].Hung && !unconstrained(c, s.before[i]) {
+			if e, ok := s.after[i].Lookup(parseArg(c.P).path()); ok && e.Dir {
+				r.Fail("mkdir-p-not-tolerant:"+c.MkdirRace+":"+bn, fmt.Sprintf("%s returned %s on the %s back end although the directory exists afterwards", c, s.res[i], bn), replay)
+			}
+		}
 		// WriteFile: after a successful write the file holds exactly the bytes written
 		if c.Op == "write" && s.res[i].Err == "" && !s.res[i].Hung && c.FaultAt == 0 && c.CancelAt == 0 && !unconstrained(c, s.before[i]) {
 			if e, ok := s.after[i].Lookup(parseArg(c.P).path()); !ok || e.Dir || e.Data != c.Data {
